@@ -99,7 +99,9 @@ def run(ck, rng, tier):
         inp.append("outer %s %s" % (vf.fmt_vec(a), vf.fmt_vec(b)))
         meta.append(("outer", (m, n), a, b))
         M = rmat(rng, m, n, rng.choice((None, 0, 3)))
-        if rng.random() < 0.2 and m > 2:
+        if _ % 5 == 0:   # columns far from the origin compared with their spread
+            M = [[1e4 * (1 + b) + 1e-2 * rng.gauss(0, 1) for b in range(n)] for a in range(m)]
+        elif rng.random() < 0.2 and m > 2:
             M[rng.randrange(1, m)][rng.randrange(n)] = MISSING
         inp.append("unary %s" % vf.fmt_mat(M, n))
         meta.append(("unary", (m, n), M))
@@ -228,6 +230,11 @@ def run(ck, rng, tier):
                                 okc = False
                     if not okc:
                         direct_fail[i] = ("MatrixCovariance", "value", "covariance differs from definition / not symmetric")
+                    # column variance / standard deviation against the exact value, entry by entry
+                    for b in range(n):
+                        if abs(o["colvar"][b] - scale2[b]) > 1e-8 * scale2[b] + 1e-300 or abs(o["colsdev"][b] - math.sqrt(scale2[b])) > 1e-8 * math.sqrt(scale2[b]) + 1e-300:
+                            direct_fail[i] = ("MatrixColVar", "value", "column %d: variance %r / sdev %r, exact variance %r (column mean %.6g)" % (b, o["colvar"][b], o["colsdev"][b], scale2[b], float(mean[b])))
+                            break
         elif kind == "sort":
             _, (m, n), M, key = mt
             checks.add(i, "msort", "mchk (msort %d %s) %s" % (key, cm(M), cm(o["sorted"])))
